@@ -4,6 +4,7 @@ import (
 	"context"
 	"fmt"
 	"runtime/debug"
+	"sort"
 	"time"
 
 	abci "github.com/cometbft/cometbft/abci/types"
@@ -325,6 +326,63 @@ func (c *L1) Deliver(msgs ...sdk.Msg) Result {
 	c.countShadow(r)
 	c.T.AddResult(msgs, r)
 	return r
+}
+
+// DeliverInspect delivers one message like Deliver and, when the handler fails, also reports what the handler had
+// written to the ophost and bank stores of its own (then discarded) branch before it failed: the keys whose value differs
+// from the parent state. "Fails with no effect" is about the handler, not about the rollback the harness performs.
+func (c *L1) DeliverInspect(msg sdk.Msg) (res Result, leftovers []string) {
+	c.runShadow()
+	cacheCtx, write := c.Ctx.CacheContext()
+	gm := NewRecordingGasMeter(0)
+	cacheCtx = cacheCtx.WithEventManager(sdk.NewEventManager()).WithGasMeter(gm)
+	func() {
+		defer func() {
+			if r := recover(); r != nil {
+				res = Result{Class: PANIC, PanicVal: r, Stack: string(debug.Stack()), GasUsed: gm.GasConsumed(), GasLog: gm.Log}
+			}
+		}()
+		h := c.Router.Handler(msg)
+		if h == nil {
+			res = Result{Class: ERR, Err: fmt.Errorf("unroutable message %s", sdk.MsgTypeURL(msg))}
+			return
+		}
+		r, err := h(cacheCtx, msg)
+		if err != nil {
+			res = Result{Class: ERR, Err: err, GasUsed: gm.GasConsumed(), GasLog: gm.Log}
+			return
+		}
+		var resps []proto.Message
+		for _, any := range r.MsgResponses {
+			if pm, ok := any.GetCachedValue().(proto.Message); ok {
+				resps = append(resps, pm)
+			}
+		}
+		res = Result{Class: OK, Resps: resps, Events: r.Events, GasUsed: gm.GasConsumed(), GasLog: gm.Log}
+	}()
+	if res.Class == OK {
+		write()
+	} else {
+		stores := []string{ophosttypes.StoreKey, banktypes.StoreKey}
+		parent := map[string]string{}
+		for _, kv := range DumpStores(c.Ctx, c.Keys, stores...) {
+			parent[kv.Store+"/"+string(kv.Key)] = string(kv.Value)
+		}
+		for _, kv := range DumpStores(cacheCtx, c.Keys, stores...) {
+			k := kv.Store + "/" + string(kv.Key)
+			if v, ok := parent[k]; !ok || v != string(kv.Value) {
+				leftovers = append(leftovers, fmt.Sprintf("%s/%x written", kv.Store, kv.Key))
+			}
+			delete(parent, k)
+		}
+		for k := range parent {
+			leftovers = append(leftovers, fmt.Sprintf("%x deleted", k))
+		}
+		sort.Strings(leftovers)
+	}
+	c.countShadow(res)
+	c.T.AddResult([]sdk.Msg{msg}, res)
+	return res, leftovers
 }
 
 func deliver(ctx sdk.Context, router *baseapp.MsgServiceRouter, gasLimit uint64, msgs ...sdk.Msg) (res Result) {
